@@ -46,7 +46,7 @@ if os.environ.get("NORMINETTE_VERIF") == "1" and os.environ.get("NV_TRACE"):
 
         def init(self, file):
             _trace["files"].append({"path": file.path, "basename": file.basename, "state": "lexing", "_file": file,
-                                    "_d0": len(sess.diags), "inline": file._source is not None})
+                                    "_d0": len(sess.diags)})
             return orig_init(self, file)
 
         def run(self, context):
@@ -91,15 +91,24 @@ if os.environ.get("NORMINETTE_VERIF") == "1" and os.environ.get("NV_TRACE"):
             f = r.pop("_file", None)
             r.pop("_d0", None)
             if f is not None:
-                r["status"] = f.errors.status
-                r["diags"] = [[e.name, e.level, e.highlights[0].lineno if e.highlights else None,
-                               e.highlights[0].column if e.highlights else None, e.text] for e in f.errors._inner]
+                try:
+                    from nv import mon as _mon
+                    r["status"] = f.errors.status
+                    r["diags"] = [[e.name, e.level, e.highlights[0].lineno if e.highlights else None,
+                                   e.highlights[0].column if e.highlights else None, e.text] for e in _mon.errors_list(f.errors)]
+                except Exception as e:
+                    out.setdefault("monitor_errors", []).append("dump: %r" % e)
             files.append(r)
         out["files"] = files
         if sess is not None:
             out["diag_fail"] = [list(map(str, x)) for x in sess.diag_fail]
             out["seg_fail"] = [list(map(str, x)) for x in sess.seg_fail]
             out["asserts"] = sess.asserts
+        try:
+            from nv import mon as _mon2
+            out["monitor_errors"] = list(out.get("monitor_errors", [])) + list(_mon2.MONITOR_ERRORS)
+        except Exception:
+            pass
         out["recursion_limit_at_exit"] = sys.getrecursionlimit()
         try:
             with open(os.environ["NV_TRACE"], "w") as fh:
